@@ -216,7 +216,31 @@ def check_sizes(chk, exes, mdl):
             if o.startswith("!") or (x or "").startswith("!"):
                 V("the implementation crashed or a sanitizer stopped it", rq, o if o.startswith("!") else x, name); continue
             judge(c, name, o, x, m, sp)
-    return len(cases), len(giant)
+    # ---- composing into a caller's buffer when a worst-case size is near INT_MAX: the capacity tests of the writing engine
+    # (position + separator + worst case of the next key / value) must not wrap either.  The destination has exactly maxChars
+    # characters and ends at an inaccessible page.  One 358 / 716 MB string per case (x4 as wchar_t).
+    wr = [(0, 1, 64, [(1, 7, 357913940)]), (0, 0, 64, [(1, 4, 715827881)]), (0, 1, 64, [(1, 7, -1), (1, 357913940, -1)]),
+          (1, 1, 9, [(1, 7, 357913940)]), (0, 1, 64, [(1, 357913940, -1)]), (0, 0, 1000, [(3, 100, 100), (1, 20, 715827881)])]
+    if chk.tier == "quick": wr = wr[:3]
+    for stp, nb, cap, groups in wr:
+        c = (stp, nb, groups)
+        items_ok, total, textlen = big_oracle(c)
+        rq = "bigcompose %d %d %d %s" % (stp, nb, cap, " ".join("%d %d %d" % g for g in groups))
+        for name, exe in exes.items():
+            if chk.tier == "quick" and name != "A": continue
+            chars = sum(kl + 1 + (vl + 1 if vl not in (-1, kl) else 0) for N, kl, vl in groups)
+            need = int(chars * (1 if name.startswith("A") else 4) * (1.5 if "asan" in name else 1.25)) + (256 << 20)
+            if mem_available() < need:
+                lib.log("C17: %s skipped on the %s build: needs %d MB" % (rq, name, need >> 20)); continue
+            o = qflib.run_lines(exe, [rq], chunks=1)[0]; chk.cov["evaluations"] += 1
+            of = o.split()
+            if of[:2] == ["bigcompose", "nomem"]: continue
+            if o.startswith("!") or len(of) != 4:
+                V("composing into a buffer of %d characters: crash (a store beyond maxChars reaches the inaccessible page behind the buffer) or a sanitizer stopped it" % cap, rq, o, name)
+            elif of[3] != "1": V("composing stored in front of the destination buffer", rq, o, name)
+            elif textlen + 1 > cap and of[1] != "4":
+                V("composing a text of %d characters into %d reports return code %s instead of the too-large code" % (textlen, cap, of[1]), rq, o, name)
+    return len(cases) + len(wr), len(giant) + len(wr)
 
 # ---------------------------------------------------------------------------------- the check
 def run(chk):
